@@ -5,6 +5,7 @@ version compatibility; crafted acks that exceed or contradict the offer are refu
 import itertools, multiprocessing, os, random, traceback
 import prudp_session as ps
 import l1_corr
+import l1_stream
 import c06_sameaddr
 import c06_race
 
@@ -455,6 +456,10 @@ def run(ctx):
                 r = c06_sameaddr.l1_compare(drv, sess)       # the SERVER transport of the whole visitor sequence through the L1 model
             elif sess is not None and (kind in ("grid", "versions", "crafted") or (kind == "race" and sess.cfg.transport == "udp")):
                 r = l1_corr.compare(drv, sess, "x")
+            elif sess is not None and kind in ("lite", "race") and getattr(getattr(sess, "cfg", None), "transport", "udp") == "lite":
+                r = l1_stream.compare(drv, sess, "x")        # stream transports: replayed from the stream reads / writes (harness/l1_stream.py)
+                if not r.get("skipped"):
+                    ctx.tag("l1-stream-replay")
             else:
                 r = {"ok": True, "diffs": [], "skipped": True}
             if not r["ok"]:
